@@ -38,7 +38,10 @@ def one(item):
         return tag, res
     try:
         env = dict(ENV, PYTHONPATH=wt)
-        demo = f"{src}/demo_{x}.py"
+        # demos locate the tree relative to their own path (<tree>/mutants/demo_X.py or <tree>/demo_X.py): run a copy placed
+        # inside the scratch worktree, never the original next to the author's (clean) tree
+        sh(f"mkdir -p {wt}/mutants && cp {src}/demo_{x}.py {wt}/mutants/")
+        demo = f"{wt}/mutants/demo_{x}.py"
         rc, out = sh(f"cd {wt} && /venv/bin/python {demo}", env=env, timeout=1800)
         res["demo_clean_rc"], res["demo_clean_tail"] = rc, out[-300:]
         rc, out = sh(f"cd {wt} && git apply --3way {src}/{x}.diff || git apply {src}/{x}.diff")
